@@ -35,6 +35,7 @@ type G struct {
 	ID      int    // order of registration (diagnostics only)
 	Key     string // structural id: parent's key + "." + index of the go statement executed by the parent
 	kids    int
+	pre     uint64 // preemption points passed (see Preempt)
 	pstep   int // controller step during which the goroutine parked
 	goid    uint64
 	node    *Node
@@ -114,6 +115,12 @@ type Sim struct {
 	nodes       []*Node
 
 	Stalls []*StallRule
+	// PreemptM > 0 turns the statement-level preemption points (Preempt) on:
+	// a goroutine is parked at its n-th point iff hash(PreemptSeed, key, n) % PreemptM == 0
+	PreemptM    uint64
+	PreemptSeed uint64
+	preSites    []uint64
+	preempted   int
 
 	// SutPanics: panics that reached the top of an instrumented goroutine
 	SutPanics []string
@@ -369,6 +376,56 @@ func LockReleasing() {
 	if g := s.self(); g != nil && g.locks > 0 {
 		g.locks--
 	}
+}
+
+// Preempt is inserted before ordinary statements. It models a preemption
+// between two statements of a goroutine (what a real scheduler does at any
+// instruction): off by default, and when on for a run only a pseudo-random,
+// seed-determined subset of the points of each goroutine parks, so that the
+// choice does not depend on how goroutines interleave.
+func Preempt(id uint32, site string) {
+	s := cur.Load()
+	if s == nil || s.PreemptM == 0 {
+		return
+	}
+	// hot statements (byte loops) quickly stop being eligible: a site counts at
+	// its first 8 executions and then at powers of two only. This test comes
+	// first and is cheap; everything below runs a bounded number of times.
+	n := atomic.AddUint64(&s.preSites[id&0xffff], 1)
+	if n > 8 && n&(n-1) != 0 {
+		return
+	}
+	g := s.self()
+	if g == nil || g.locks > 0 || g.Key == "" {
+		return
+	}
+	g.pre++
+	h := fnv(s.PreemptSeed|1, g.Key)
+	h ^= g.pre * 0x9E3779B97F4A7C15
+	h ^= h >> 29
+	h *= 0xBF58476D1CE4E5B9
+	h ^= h >> 32
+	if h%s.PreemptM != 0 {
+		return
+	}
+	s.mu.Lock()
+	over := s.preempted >= 3000
+	if !over {
+		s.preempted++
+		s.Probes["preempted"]++
+	}
+	s.mu.Unlock()
+	if over {
+		return
+	}
+	s.park(g, site+"/pre")
+}
+
+// EnablePreempt turns the statement-level preemption points on for this run.
+func (s *Sim) EnablePreempt(m, seed uint64) {
+	s.preSites = make([]uint64, 1<<16)
+	s.PreemptSeed = seed
+	s.PreemptM = m
 }
 
 // Yield is a scheduling point.
